@@ -54,6 +54,11 @@ extra = {"C08": "yes: downloads after an abandoned earlier transfer on the same 
          "R10C05": "yes: every number also goes through the message-level accessors (raw option bytes -> get_content_format / get_observe_flag -> name, set_content_format -> bytes), not only through the conversion functions",
          "R10C08": "yes: options a client repeats on every request of a transfer, follow-up blocks included (Observe register / deregister, Accept, If-None-Match, Uri-Query, Size1) in the download driver; observing clients in MC_BlockTransfer",
          "R10C16": "yes: every attribute name the crate knows (rel, anchor, ..., et) and some it does not as keys, with repetitions - model MODE keys (one link, up to three attributes, 21 keys in every order) and the random documents",
+         "R11C03": "yes: every first header byte with every code byte on datagrams that end right after the token (and with one option and a payload), swept natively; whatever is rejected, panics or does not round-trip is forwarded to TLC with a sample of the rest",
+         "R11C07": "yes: requests whose header token-length nibble does not match the stored token (header field replaced wholesale) in the response recorder; the reply's own encoding is part of the judged event",
+         "R11C10": "yes: transfers of 19 blocks (4100 in the thorough tier) at budgets whose room is the block size -9..+1, longest token, replies with and without options below Block2; the size the handler chose when it fragmented is tracked per key and `C10FollowOk` pins that every later block of that size fits the budget",
+         "R11C11": "yes: Uri-Path segments around the 255-byte limit (253..300 bytes, ASCII and with a multi-byte character across offsets 254..257, followed by an empty segment) in hostile requests",
+         "R11C20": "yes: a transfer kept busy only by repeats of the last block request (download and upload), each gap 0.3 x expiry, the total 2 x expiry: the next block still comes from the live entry",
          "R4C12": "yes: the two entry points of an exchange as separate steps with equal message ids on different endpoints (model MODE split, deferred responses in the mixed driver); a disturbed other key is reported under C12 in every branch",
          "C20": "yes: expiry under block-wise traffic on other keys (model `Other` now block-wise; driver scenario `expiry-traffic`)"}
 for d in sorted(glob.glob(os.path.join(ROOT, "seeded", "*", "meta.json"))):
